@@ -22,7 +22,11 @@ Judge ==
   LET r == Recs[i] IN
   /\ ~r.real.panic \/ Say("panic")
   /\ r.real.panic \/
-     /\ (r.real.nodes = r.spec.nodes /\ r.real.tc = r.spec.tc /\ r.real.nsl = r.spec.nsl) \/ Say("vector_differs_from_reference")
+     \* the contract: the tree seen through the public API once the history is completed
+     /\ (r.real.tree = r.spec.tree) \/ Say("tree_differs_from_reference")
+     \* the private vector and counters are compared as well, but only as model drift
+     /\ (r.real.nodes = r.spec.nodes /\ r.real.tc = r.spec.tc /\ r.real.nsl = r.spec.nsl)
+          \/ PrintT("DRIFT|" \o ToJson([i |-> i]))
      /\ (LeafIdx(r.real.nodes, 1, 0) = r.real.tc) \/ Say("leaves")
      /\ ExtentsOK(r.real.nodes) \/ Say("extents")
 =============================================================================
